@@ -37,11 +37,6 @@ func (r BatchedTokenRequest) Marshal() []byte {
 }
 
 func (r *BatchedTokenRequest) Unmarshal(data []byte) bool {
-	// At most, a quic varint is 4 byte long. copy them to read the length
-	if len(data) < 4 {
-		return false
-	}
-
 	l, offset := quicwire.ConsumeVarint(data)
 	if offset < 0 || l > uint64(len(data)-offset) {
 		return false
